@@ -54,6 +54,13 @@ def generate(seed, tier="quick"):
         op = gen_op(o, dw, sw, cfg)
         if op is not None and dw.dry_apply(op) == "accept":
             ops.append(op)
+    if shape["kind"] == "network" and o.random() < 0.6:
+        # wiring burst: several synapses of 2-3 interleaved types (rank within type != global edge index)
+        types_ = o.sample(mech.SYNAPSES, o.randint(2, 3))
+        for _ in range(o.randint(3, 6)):
+            op = {"op": "connect", "pre": o.randrange(1 << 16), "post": o.randrange(1 << 16), "cls": o.choice(types_), "name": None}
+            if dw.dry_apply(op) == "accept":
+                ops.append(op)
     if not dw.ref.recordings:
         op = {"op": "record", "view": [], "state": "v"}
         dw.dry_apply(op)
@@ -289,7 +296,10 @@ def execute(program):
     # ---- data_set is functional: integrate must not modify the caller's param_state, and feeding the same object
     #      twice gives the same result.  Probed on a synapse parameter of an edge that is not the first of its type.
     if ref.edges:
-        cand = [e for e, ed in enumerate(ref.edges) if any(x["type"] == ed["type"] for x in ref.edges[:e])] or list(range(len(ref.edges)))
+        iw_ = [sum(1 for x in ref.edges[:e] if x["type"] == ed["type"]) for e, ed in enumerate(ref.edges)]  # index within type
+        # prefer synapses for which translating the index twice lands elsewhere (interleaved types)
+        cand = ([e for e in range(len(ref.edges)) if iw_[iw_[e]] != iw_[e]]
+                or [e for e in range(len(ref.edges)) if iw_[e] != e] or list(range(len(ref.edges))))
         e_ = cand[program.get("edit_seed", 0) % len(cand)]
         syn_ = [s_ for s_ in ref.syns if s_["name"] == ref.edges[e_]["type"]][0]
         key_ = sorted(syn_["params"])[program.get("edit_seed", 0) % len(syn_["params"])]
